@@ -634,6 +634,19 @@ def numbering(ctx, rep, r3, em=None):
             if hook is None:
                 break
             f = cls.methods.get(hook)
+            if f is None:
+                # a template method: the base hook numbers the node and hands over to a second hook, which the
+                # nestable class overrides
+                base = p.supplier(cls, hook)
+                subs = {n.func.attr for n in walk_local(base.node) if isinstance(n, ast.Call)
+                        and isinstance(n.func, ast.Attribute) and isinstance(n.func.value, ast.Name)
+                        and n.func.value.id == 'self' and n.func.attr in cls.methods} if base is not None else set()
+                if subs:
+                    rep.error(r3, "%s numbers a nested scheduler through a template method (%s.%s calls %s, overridden "
+                              "in %s): this rule reads the form where the nestable class overrides the numbering hook "
+                              "itself, and cannot decide this one" % (cls.name, base.cls.name, hook,
+                                                                      ", ".join(sorted(subs)), cls.name))
+                    continue
             rep.check(f is not None, r3, "%s overrides the numbering hook" % cls.name, "class " + cls.name,
                       "%s.%s is inherited from %s" % (cls.name, hook, p.supplier(cls, hook).cls.name),
                       "the jobs of a nested scheduler are not numbered: ids collide across the tree")
